@@ -8,7 +8,8 @@ CFG = dict(
     rule="op sequences over 6 keys x 3 values against the real DedupeBuffer with a recording sink: protocol-shaped runs "
          "(changing datastore, snapshot in batches, in-sync, deltas, 2-4 connections, restarts also mid-snapshot), "
          "unconstrained op soups and a boundary stream (duplicates, deletes of unknown keys, status flapping, back-to-back "
-         "restarts, pull 0); second stream (about 1 in 13 cases): the REAL syncclient.SyncerClient (Start, reconnect goroutine, "
+         "restarts, pull 0; value-less updates typed deleted/new/updated/unknown); bulk stream (105-144 keys, drains in several "
+         "batches of 100); callbacks structure (OnUpdates slices / statuses) compared with Model.callbacks_of; second stream (about 1 in 13 cases): the REAL syncclient.SyncerClient (Start, reconnect goroutine, "
          "startOneConnection, connect, loop) with the REAL DedupeBuffer as its callbacks over loopback TCP against a scripted "
          "Typha endpoint (snapshot in batches, in-sync, deltas, connection dropped mid-snapshot / after in-sync / refused at the "
          "handshake, datastore changed while away), history given to model and oracle = the endpoint's ground truth (every drop "
